@@ -1357,17 +1357,15 @@ def lower_tuple(lw, name, decl, fns, ctx0):
 
 def lower_config(path, top, rust_of, order):
     """path: emitted file; top: its top module (= configuration name); rust_of: {schema name: rust path}; order: schema names in
-    schema.txt order -> (rows, stats): rows[i] is the row of order[i] or ('ENone',)"""
+    schema.txt order -> (names, rows, stats): names = the types of `order` this configuration emits, in that order (the
+    configuration's schema is schema.txt restricted to them, indices renumbered); rows[i] is the row of names[i]"""
     code = strip_text(open(path, encoding='utf-8').read())
     decls, impls = scan_items(code, top)
-    index_of_path = {rust_of[n]: i for i, n in enumerate(order)}
-    rows, stats = [], dict(structs=0, unions=0, enums=0, newtypes=0, absent=0, fields=0, arms=0)
-    for n in order:
+    names = [n for n in order if rust_of[n] in impls]
+    index_of_path = {rust_of[n]: i for i, n in enumerate(names)}
+    rows, stats = [], dict(structs=0, unions=0, enums=0, newtypes=0, absent=len(order) - len(names), fields=0, arms=0)
+    for n in names:
         rp = rust_of[n]
-        if rp not in impls:
-            rows.append(('ENone',))
-            stats['absent'] += 1
-            continue
         if rp not in decls:
             raise LowerError('%s: Message impl without a declaration of %s' % (n, rp))
         d, fns = decls[rp], impls[rp]
@@ -1377,6 +1375,7 @@ def lower_config(path, top, rust_of, order):
         lw = Lower(index_of_path, rp.split('::')[:-1])
         ctx = '%s (%s::%s)' % (n, top, rp)
         try:
+            parse_body(fns['decode_async'])            # parsed (an unknown construct is a translator failure), not lowered
             if d[0] == 'struct':
                 r = lower_struct(lw, rp, d, fns, ctx)
                 stats['structs'] += 1
@@ -1395,8 +1394,7 @@ def lower_config(path, top, rust_of, order):
     extra = sorted(set(impls) - set(rust_of.values()))
     if extra:
         raise LowerError('Message impls of types that are not in the schema: %s' % ', '.join(extra[:5]))
-    return rows, stats
-
+    return names, rows, stats
 
 
 # ------------------------------------------------------------------ Coq text
@@ -1510,9 +1508,13 @@ def coq_row(r):
     raise LowerError('row %r' % (r[:2],))
 
 
-def coq_schema(schema_txt):
-    """schema.txt -> (Coq term of type Gen.schema, names in order): the same reading as fam/gen/runner/main.ml load_schema"""
+def coq_schema(schema_txt, only=None):
+    """schema.txt -> (Coq declarations of a Gen.schema, names in order): the same reading as fam/gen/runner/main.ml load_schema;
+    only: the lines of these names (a configuration's types; a reference out of the set is an error), indices renumbered"""
     lines = [l.strip() for l in schema_txt.split('\n') if l.strip()]
+    if only is not None:
+        keep = set(only)
+        lines = [l for l in lines if l.split(' ')[1] in keep]
     names = {}
     for i, l in enumerate(lines):
         names[l.split(' ')[1]] = i
@@ -1535,7 +1537,10 @@ def coq_schema(schema_txt):
             a = ty(t)
             return '(TyMap %s %s)' % (a, ty(t))
         if k == 'ref':
-            return '(TyRef %s)' % cnat(names[t.next()])
+            nm = t.next()
+            if nm not in names:
+                raise LowerError('schema.txt: %s refers to a type the configuration does not emit' % nm)
+            return '(TyRef %s)' % cnat(names[nm])
         raise LowerError('schema.txt: bad type %s' % k)
 
     def hexb(a):
@@ -1619,19 +1624,23 @@ def coq_schema(schema_txt):
 
 
 def coq_file(schema_txt, tables, digest):
-    """tables: {cfg: rows}"""
-    decls, names = coq_schema(schema_txt)
+    """tables: {cfg: (names, rows)}"""
     out = ['(* GENERATED at check time by tools/emitted_ops.py from the code the real pilota-build emitted for the corpus',
            '   (.cache/gen_out*/<cfg>.rs) and from its lowered schema (schema.txt) -- do not edit.  digest: %s *)' % digest,
-           'From Coq Require Import String.', 'From PVGen Require Import EmitOps.', 'Open Scope Z_scope.', '',
-           '(* schema.txt, read as fam/gen/runner/main.ml reads it *)',
-           'Definition corpus_schema : schema :=', '  [ ' + ';\n    '.join('(* %d %s *) %s' % (i, names[i], d) for i, d in enumerate(decls)) + ' ].', '']
+           'From Coq Require Import String.', 'From PVGen Require Import EmitOps.', 'Open Scope Z_scope.', '']
     for cfg in sorted(tables):
+        names, rows = tables[cfg]
+        decls, names2 = coq_schema(schema_txt, only=names)
+        if names2 != list(names):
+            raise LowerError('schema.txt order and table order differ')
+        out.append('(* schema.txt restricted to the types the configuration `%s` emits, read as fam/gen/runner/main.ml reads it *)' % cfg)
+        out.append('Definition schema_%s : schema :=' % cfg)
+        out.append('  [ ' + ';\n    '.join('(* %d %s *) %s' % (i, names[i], d) for i, d in enumerate(decls)) + ' ].')
+        out.append('')
         out.append('Definition emitted_%s : list erow :=' % cfg)
-        out.append('  [ ' + ';\n    '.join('(* %d %s *) %s' % (i, names[i], coq_row(r)) for i, r in enumerate(tables[cfg])) + ' ].')
+        out.append('  [ ' + ';\n    '.join('(* %d %s *) %s' % (i, names[i], coq_row(r)) for i, r in enumerate(rows)) + ' ].')
         out.append('')
     return '\n'.join(out)
-
 
 
 # ------------------------------------------------------------------ the Ext helpers of the runtime (pilota/src/thrift/mod.rs)
